@@ -172,7 +172,7 @@ func Verdict(c *Case, o Observation) string {
 			if o.Kind == "error" {
 				ok = len(c.Allowed.Errc) == 0
 				for _, e := range c.Allowed.Errc {
-					if e == o.Errc {
+					if e == o.Errc || e == "Operator" { // "Operator": an error raised by some operator, of whatever class
 						ok = true
 					}
 				}
